@@ -56,7 +56,7 @@ fn v_circuit_size_padding() -> (r: usize) ensures r == 6 { Self::CIRCUIT_SIZE_PA
             requires=["pp.commit_key.powers_of_g@.len() >= 1"],
             ensures=["r as int == spec_max_constraints(pp.commit_key.powers_of_g@.len() - 1)"])
     f.replace("Self::CIRCUIT_SIZE_PADDING", "Self::v_circuit_size_padding()", rule="D4")
-    f.before("max_domain_size.saturating_sub", """proof {
+    f.before_tail("""proof {
     if available != 0 {
         let k: u32 = (usize::BITS - 1 - spec_usize_lz(available)) as u32;
         lemma_pow2_floor_bracket(available as int, k as nat);
